@@ -426,6 +426,21 @@ def run(prog, check):
                          'solver.MaxTime = 0 with a block that says MaxTime = 5: every series must have exactly one point')
     check.ob('C10.R7', '%s::solver-horizon-override-present' % sw.f.cls.key, n7 >= 1, sw.f.cls.module.rel,
              'the solver-level horizon is applied to the parsed block' if n7 else 'a horizon set on the solver is never applied', 'solver.MaxTime = 3')
+    # R3 (cont.): the (lag variable, source) pairs and exogenous paths are the parsed ones - no parser method
+    # re-assigns those partitions after the parse-time reset
+    Pcls = prog.classes.get('EquationParser')
+    for pf in (Pcls.methods.values() if Pcls else []):
+        if pf.name == '__init__':
+            continue
+        for n in ast.walk(pf.node):
+            tg = n.targets[0] if isinstance(n, ast.Assign) else (n.target if isinstance(n, ast.AugAssign) else None)
+            if isinstance(tg, ast.Attribute) and isinstance(tg.value, ast.Name) and tg.value.id == 'self' and tg.attr in ('Lagged', 'Exogenous'):
+                reset = isinstance(n, ast.Assign) and isinstance(n.value, ast.List) and not n.value.elts
+                check.saw(pf)
+                check.ob('C10.R3', '%s::pinned-partition-assigned(%s)' % (pf.key, tg.attr), reset, '%s:%d' % (pf.module.rel, n.lineno),
+                         'parse-time reset' if reset else
+                         'the %s partition is rewritten after parsing: a lag is then read from another variable than the block says' % tg.attr,
+                         'a lag of an alias that carries its own initial condition')
     # ---- R8: every exogenous definition reaches its variable (the last one supplied wins) ----------------------
     from ._common import exogenous_applied
     pf_, okx_, whyx_ = exogenous_applied(prog)
